@@ -17,6 +17,7 @@ import SuccinctlyVerif.Proof.BPFast2
 import SuccinctlyVerif.Proof.BPSelect0
 import SuccinctlyVerif.Proof.BPSse3
 import SuccinctlyVerif.Proof.BPSelCS3
+import SuccinctlyVerif.Proof.BPWrap
 namespace SV.Props.C04
 open SV SV.BP SV.BPM
 
@@ -406,5 +407,32 @@ example : (construct false false [0xFFFFFFFFFFFFFFCB#64] 6 (.csPoppy 2)).map (fu
   decide +kernel
 example : (construct true true [0xFFFFFFFFFFFFFFCB#64] 6 .withSelect).map (fun I => I.select1 3) = some none := by
   decide +kernel
+
+/-! ### beyond `2^31` bits (finding F13)
+
+The constructors accept `len ≤ u32::MAX`, but `excess()`, `depth()` and `find_close_from` keep the
+excess in an `i32`. `excess_eq_wrap` shows `excess()` is exact whenever the true value is
+representable; the theorems about `depth`, `find_close`, `next_sibling`, `subtree_size`, `enclose`
+carry `len < 2^31`. For `2^31 ≤ len < 2^32` that side condition is necessary: -/
+
+/-- On `2^31` opens (a 256 MiB bitmap every constructor accepts) the depth of the last open is
+`2^31`, but `depth()` — `excess() as usize` through the wrapping `i32` — yields `2^64 − 2^31`. -/
+theorem depth_defect_beyond_i32 :
+    (construct false true (List.replicate 33554432 (BitVec.allOnes 64)) 2147483648 .noSelect).map
+        (fun I => I.depth 2147483647) = some (some 18446744071562067968) ∧
+    BP.depth (bitsOf (List.replicate 33554432 (BitVec.allOnes 64)) 2147483648) 2147483647 = some 2147483648 :=
+  BPR.depth_defect_beyond_i32
+
+/-- Mechanism of the false match of `find_close` beyond `2^31` opens: with the `i32` excess wrapped
+to `−2^31`, `excess + l2_min_excess` wraps to a positive value, the block is skipped without being
+searched and the branch `is_close(pos) && excess <= 1` — unreachable while the excess is exact
+(`find_close_from_eq`) — returns `pos`. One `CheckL2` step over an all-closes block. The end-to-end
+instance (`2^31` opens then closes: `find_close(0)` = `Some(2^31)`, expected `None`) is the manual
+replay `corpus/C04/finding-13-big.manual`. -/
+theorem find_close_false_match_mechanism :
+    fcfStep { words := #[0#64], len := 64, totalOnes := 0, l0 := #[(-64, -64)], l1 := #[(-64, -64)],
+              l2 := #[(-65536, -65536)], rankL1 := #[0], rankL2 := #[0], sel := Sel.none }
+      St.checkL2 (wrapI32 2147483648) 0 = Sum.inl (some 0) :=
+  BPR.checkL2_false_match
 
 end SV.Props.C04
